@@ -78,14 +78,42 @@ func OpInRange(x Value, orgOp tok.Token, org Value, endOp tok.Token, end Value) 
 func OpAdd(x Value, y Value) Value {
 	if xi, xok := SuIntToInt(x); xok {
 		if yi, yok := SuIntToInt(y); yok {
-			return IntVal(xi + yi)
+			if sum, ok := addInt(xi, yi); ok {
+				return IntVal(sum)
+			}
 		}
 	}
 	return SuDnum{Dnum: dnum.Add(ToDnum(x), ToDnum(y))}
 }
 
+// addInt, subInt and mulInt return the exact result and true if it fits
+// in an int, so that callers can fall back to decimal arithmetic
+// instead of wrapping around.
+
+func addInt(x, y int) (int, bool) {
+	sum := x + y
+	return sum, (sum > x) == (y > 0)
+}
+
+func subInt(x, y int) (int, bool) {
+	diff := x - y
+	return diff, (diff < x) == (y > 0)
+}
+
+func mulInt(x, y int) (int, bool) {
+	if x == 0 || y == 0 {
+		return 0, true
+	}
+	prod := x * y
+	if (x == -1 && y == math.MinInt) || (y == -1 && x == math.MinInt) ||
+		prod/y != x {
+		return 0, false
+	}
+	return prod, true
+}
+
 func OpAdd1(x Value) Value {
-	if n, ok := SuIntToInt(x); ok {
+	if n, ok := SuIntToInt(x); ok && n != math.MaxInt {
 		return IntVal(n + 1)
 	}
 	return SuDnum{Dnum: dnum.Add(ToDnum(x), dnum.One)}
@@ -94,7 +122,9 @@ func OpAdd1(x Value) Value {
 func OpSub(x Value, y Value) Value {
 	if xi, xok := SuIntToInt(x); xok {
 		if yi, yok := SuIntToInt(y); yok {
-			return IntVal(xi - yi)
+			if diff, ok := subInt(xi, yi); ok {
+				return IntVal(diff)
+			}
 		}
 	}
 	return SuDnum{Dnum: dnum.Sub(ToDnum(x), ToDnum(y))}
@@ -103,7 +133,9 @@ func OpSub(x Value, y Value) Value {
 func OpMul(x Value, y Value) Value {
 	if xi, xok := SuIntToInt(x); xok {
 		if yi, yok := SuIntToInt(y); yok {
-			return IntVal(xi * yi)
+			if prod, ok := mulInt(xi, yi); ok {
+				return IntVal(prod)
+			}
 		}
 	}
 	return SuDnum{Dnum: dnum.Mul(ToDnum(x), ToDnum(y))}
@@ -112,7 +144,7 @@ func OpMul(x Value, y Value) Value {
 func OpDiv(x Value, y Value) Value {
 	if yi, yok := SuIntToInt(y); yok && yi != 0 {
 		if xi, xok := SuIntToInt(x); xok {
-			if xi%yi == 0 {
+			if xi%yi == 0 && !(xi == math.MinInt && yi == -1) {
 				return IntVal(xi / yi)
 			}
 		}
@@ -182,7 +214,7 @@ func OpUnaryPlus(x Value) Value {
 }
 
 func OpUnaryMinus(x Value) Value {
-	if xi, ok := SuIntToInt(x); ok {
+	if xi, ok := SuIntToInt(x); ok && xi != math.MinInt {
 		return IntVal(-xi)
 	}
 	if x == EmptyStr || x == False {
